@@ -249,7 +249,10 @@ def configs(tier):
             ("uint32", 0, 10 ** 9, 100, "int", 0, 2 * 10 ** 9)]
     cfg += [("uint64", 0, 2 ** 64 - 1, 1, "int", 0, big), ("uint64", None, None, None, "int", 0, big)]
     cfg += [("int", -2 ** 31, 2 ** 31 - 1, 1, "int", -2 ** 32, 2 ** 32), ("int", -100, 100, 2, "int", -1000, 1000), ("int", None, None, 5, "int", -10 ** 6, 10 ** 6),
-            ("int", -50, 50, 1, "dec", -60, 60)]
+            ("int", -50, 50, 1, "dec", -60, 60),
+            # zero-valued bounds (falsy in Python) are bounds too
+            ("int", -50, 0, 1, "int", -100, 100), ("int", -50, 0, None, "int", -100, 100), ("float", -50, 0, "0.5", "dec", -100, 100),
+            ("int", 0, 50, None, "int", -100, 100), ("float", 0, None, "0.5", "dec", -100, 100), ("float", None, 0, None, "dec", -100, 100)]
     cfg += [("float", 10, 38, "0.1", "dec", -100, 100), ("float", 10, 38, "0.5", "dec", -100, 100), ("float", 0, 100, "0.01", "dec", -10, 200),
             ("float", 0, 100, 1, "dec", -10, 200), ("float", None, None, None, "dec", -1000, 1000), ("float", -30, 30, "0.1", "dec", -100, 100),
             ("float", 0, 100000, "0.1", "dec", 0, 100000), ("float", 0, 1, "0.01", "int", -5, 5)]
